@@ -113,7 +113,11 @@ func (t *Transport) Listen(addr net.Addr) (*SnowflakeListener, error) {
 	// listenAndServeErrorTimeout, to see if an error is returned (because
 	// it's better if the error message goes to the tor log through
 	// SMETHOD-ERROR than if it only goes to the snowflake log).
-	errChan := make(chan error)
+	// errChan has room for the one value that is ever sent: after the select
+	// below has timed out nobody receives from it any more, and the error
+	// that ListenAndServe returns at Close (http.ErrServerClosed) would
+	// otherwise park this goroutine in its send for ever.
+	errChan := make(chan error, 1)
 	go func() {
 		if t.getCertificate == nil {
 			// TLS is disabled
